@@ -157,6 +157,7 @@ func genC18(t *rapid.T) *C18Case {
 }
 
 func c18Complete(d *Decl, words []string) (items []string, called bool, pm string) {
+	defer guardCall("completion")()
 	b := Build(d)
 	if b.Err != nil {
 		return nil, false, "setup: " + b.Err.Error()
